@@ -147,6 +147,17 @@ func (p *c03) Prepare(t *testing.T, tier string, seed uint64) {
 				}
 			}
 		}
+		// the device's HMAC engine fails its n-th finalisation during DI / TO2
+		for nth := 1; nth <= 3; nth++ {
+			for _, round := range []int{0, 1, 2} {
+				for _, reuse := range []bool{false, true} {
+					pl := next(k)
+					pl.Rounds, pl.Reuse = 3, reuse
+					pl.Cut = &C03Cut{Round: round, Kind: "hmac_err", Nth: nth}
+					plans = append(plans, pl)
+				}
+			}
+		}
 		// storage errors (simstore only): n-th call of each method during DI / TO2
 		for _, m := range c03Methods {
 			for nth := 1; nth <= 3; nth++ {
@@ -356,7 +367,7 @@ func (p *c03) Exec(env *Env, plan any) {
 		if ev.Phase == "resp" && ev.OrigRespType == 71 {
 			done70Accepted = true
 		}
-		if !cutArmed || cutFired || pl.Cut == nil || pl.Cut.Kind == "disk_err" {
+		if !cutArmed || cutFired || pl.Cut == nil || pl.Cut.Kind == "disk_err" || pl.Cut.Kind == "hmac_err" {
 			return
 		}
 		c := pl.Cut
@@ -405,12 +416,17 @@ func (p *c03) Exec(env *Env, plan any) {
 			}
 		}
 	})
+	var hmacDev *Device
 	arm := func(round int, node string) {
 		cutArmed, reqIdx, cutNode = false, 0, node
 		if pl.Cut == nil || pl.Cut.Round != round || cutFired {
 			return
 		}
 		cutArmed = true
+		if pl.Cut.Kind == "hmac_err" && hmacDev != nil {
+			// the device's secure element fails the n-th HMAC finalisation of this protocol run
+			hmacDev.HmacSums, hmacDev.HmacFailSum = 0, pl.Cut.Nth
+		}
 		if pl.Cut.Kind == "disk_err" {
 			if sim := s.Nodes[node].Sim; sim != nil {
 				sim.FailAt[pl.Cut.Arg] = sim.Calls[pl.Cut.Arg] + pl.Cut.Nth
@@ -419,6 +435,15 @@ func (p *c03) Exec(env *Env, plan any) {
 	}
 	disarm := func() {
 		cutArmed = false
+		if pl.Cut != nil && pl.Cut.Kind == "hmac_err" && hmacDev != nil && hmacDev.HmacFailSum > 0 {
+			if hmacDev.HmacFaults > 0 && !cutFired {
+				cutFired = true
+				s.Net.mu.Lock()
+				s.Net.Faults["hmac_err"]++
+				s.Net.mu.Unlock()
+			}
+			hmacDev.HmacFailSum = 0
+		}
 		if pl.Cut != nil && pl.Cut.Kind == "disk_err" && cutNode != "" {
 			if sim := s.Nodes[cutNode].Sim; sim != nil {
 				if sim.Fired[pl.Cut.Arg] > 0 && !cutFired {
@@ -465,6 +490,7 @@ func (p *c03) Exec(env *Env, plan any) {
 
 	// --- DI ---
 	dev := s.NewDevice("dev1", "dev1", cfg)
+	hmacDev = dev
 	arm(0, "mfg")
 	mfgBefore := voucherDigest("mfg")
 	diErr := s.DI(ctx, dev, "mfg")
